@@ -79,9 +79,9 @@ Conc/InterleaveCheck.vos Conc/InterleaveCheck.vok Conc/InterleaveCheck.required_
 Conc/InterleaveProofs.vo Conc/InterleaveProofs.glob Conc/InterleaveProofs.v.beautified Conc/InterleaveProofs.required_vo: Conc/InterleaveProofs.v Gen/ConcGen.vo Conc/Interleave.vo
 Conc/InterleaveProofs.vio: Conc/InterleaveProofs.v Gen/ConcGen.vio Conc/Interleave.vio
 Conc/InterleaveProofs.vos Conc/InterleaveProofs.vok Conc/InterleaveProofs.required_vos: Conc/InterleaveProofs.v Gen/ConcGen.vos Conc/Interleave.vos
-Cond/Check.vo Cond/Check.glob Cond/Check.v.beautified Cond/Check.required_vo: Cond/Check.v Cond/Syntax.vo Cond/Sem.vo Cond/Quirks.vo Cond/RuleSet.vo
-Cond/Check.vio: Cond/Check.v Cond/Syntax.vio Cond/Sem.vio Cond/Quirks.vio Cond/RuleSet.vio
-Cond/Check.vos Cond/Check.vok Cond/Check.required_vos: Cond/Check.v Cond/Syntax.vos Cond/Sem.vos Cond/Quirks.vos Cond/RuleSet.vos
+Cond/Check.vo Cond/Check.glob Cond/Check.v.beautified Cond/Check.required_vo: Cond/Check.v Cond/Syntax.vo Cond/Sem.vo Cond/RuleSet.vo
+Cond/Check.vio: Cond/Check.v Cond/Syntax.vio Cond/Sem.vio Cond/RuleSet.vio
+Cond/Check.vos Cond/Check.vok Cond/Check.required_vos: Cond/Check.v Cond/Syntax.vos Cond/Sem.vos Cond/RuleSet.vos
 Cond/HostCheck.vo Cond/HostCheck.glob Cond/HostCheck.v.beautified Cond/HostCheck.required_vo: Cond/HostCheck.v Cond/HostTypes.vo Cond/HostModel.vo Cond/Traps.vo Gen/HostFns.vo
 Cond/HostCheck.vio: Cond/HostCheck.v Cond/HostTypes.vio Cond/HostModel.vio Cond/Traps.vio Gen/HostFns.vio
 Cond/HostCheck.vos Cond/HostCheck.vok Cond/HostCheck.required_vos: Cond/HostCheck.v Cond/HostTypes.vos Cond/HostModel.vos Cond/Traps.vos Gen/HostFns.vos
@@ -115,6 +115,9 @@ Cond/PrecProofs.vos Cond/PrecProofs.vok Cond/PrecProofs.required_vos: Cond/PrecP
 Cond/Quirks.vo Cond/Quirks.glob Cond/Quirks.v.beautified Cond/Quirks.required_vo: Cond/Quirks.v Cond/Syntax.vo Cond/Sem.vo
 Cond/Quirks.vio: Cond/Quirks.v Cond/Syntax.vio Cond/Sem.vio
 Cond/Quirks.vos Cond/Quirks.vok Cond/Quirks.required_vos: Cond/Quirks.v Cond/Syntax.vos Cond/Sem.vos
+Cond/QuirksProofs.vo Cond/QuirksProofs.glob Cond/QuirksProofs.v.beautified Cond/QuirksProofs.required_vo: Cond/QuirksProofs.v Cond/Syntax.vo Cond/Sem.vo Cond/SemProofs.vo Cond/Quirks.vo
+Cond/QuirksProofs.vio: Cond/QuirksProofs.v Cond/Syntax.vio Cond/Sem.vio Cond/SemProofs.vio Cond/Quirks.vio
+Cond/QuirksProofs.vos Cond/QuirksProofs.vok Cond/QuirksProofs.required_vos: Cond/QuirksProofs.v Cond/Syntax.vos Cond/Sem.vos Cond/SemProofs.vos Cond/Quirks.vos
 Cond/Rename.vo Cond/Rename.glob Cond/Rename.v.beautified Cond/Rename.required_vo: Cond/Rename.v Cond/Syntax.vo
 Cond/Rename.vio: Cond/Rename.v Cond/Syntax.vio
 Cond/Rename.vos Cond/Rename.vok Cond/Rename.required_vos: Cond/Rename.v Cond/Syntax.vos
